@@ -70,7 +70,11 @@ func (o *hOrigin) ServeHTTP(w http.ResponseWriter, r *http.Request) {
 		sc.hits++
 	}
 	o.mu.Unlock()
-	io.Copy(io.Discard, r.Body)
+	if idx >= 0 && sc.resps[idx].ReadOnly > 0 {
+		io.CopyN(io.Discard, r.Body, int64(sc.resps[idx].ReadOnly)) // then answer and leave the rest unread
+	} else {
+		io.Copy(io.Discard, r.Body)
+	}
 	if idx < 0 {
 		w.WriteHeader(599)
 		return
@@ -380,7 +384,15 @@ func parseH3Dir(b []byte) (fields [][2]string, chunks [][]byte) {
 			return
 		}
 		l, err := quicvarint.Read(r)
-		if err != nil || l > uint64(r.Len()) {
+		if err != nil {
+			return
+		}
+		if l > uint64(r.Len()) { // the recording ends inside a frame (the reader stopped reading)
+			if t == 0x0 && r.Len() > 0 {
+				p := make([]byte, r.Len())
+				io.ReadFull(r, p)
+				chunks = append(chunks, p)
+			}
 			return
 		}
 		p := make([]byte, l)
@@ -552,11 +564,17 @@ func pairs23(r *hk.Run, rng *hk.Rand, count int, st stack) {
 			failOnce(r, hk.Failure{Sig: "hang:" + sigBase, What: fmt.Sprintf("exchange did not complete within the watchdog limit (dump off hang=%v, dump on hang=%v)", off.Hang, on.Hang), Input: in})
 			continue
 		}
-		if !off.Res.equal(on.Res) {
+		if !sameOutcome(ex, off.Res, on.Res) {
 			failOnce(r, hk.Failure{Sig: "transparent:result:" + sigBase, What: "caller-visible result differs between dump off and dump on", Input: in, Got: on.Res, Want: off.Res})
 		}
 		wireSame := len(wOff) == len(wOn)
 		for k := 0; wireSame && k < len(wOn); k++ {
+			if ex.Abort != "" { // how much of the body the peer had read is timing; the fields are not
+				a, b := wOff[k], wOn[k]
+				a.ReqChunks, b.ReqChunks = nil, nil
+				wireSame = sameWire(a, b)
+				continue
+			}
 			wireSame = sameWire(wOff[k], wOn[k])
 		}
 		if !wireSame {
@@ -591,6 +609,19 @@ func pairs23(r *hk.Run, rng *hk.Rand, count int, st stack) {
 					pl.add([]byte(f[1]))
 				}
 			}
+		}
+		if ex.Abort != "" && len(xs) == 1 {
+			received := bytes.Join(wOn[0].ReqChunks, nil)
+			n, ok := abortAdjust(cfg, xs, 0, ex.body, received, []byte("\r\n\r\n"), on.Sink)
+			if !ok {
+				failOnce(r, hk.Failure{Sig: "faithful:abandoned-upload:" + sigBase, What: "request-body dump of an upload that broke off is not between what the peer received and the whole body", Input: in,
+					Got: fmt.Sprintf("%d body bytes dumped", n), Want: fmt.Sprintf("between %d (received by the origin) and %d", len(received), len(ex.body))})
+			}
+			r.Count(fmt.Sprintf("%s.upload-abandoned(dumped<body=%v)", st.name, n < len(ex.body)))
+			pl.add(ex.body)
+			w := wOn[0]
+			coqX = append(coqX, fmt.Sprintf("X3a %s %s %s %s %s", coqFields(w.ReqFields, pl), pl.enc(ex.body), hk.CoqNat(n), coqFields(w.RespFields, pl), coqReads(xs[0], pl)))
+			wOn = nil
 		}
 		for k, w := range wOn {
 			if k >= len(resps) {
@@ -673,5 +704,38 @@ func h3Pairs(r *hk.Run, rng *hk.Rand, count int) {
 		client: func() *req.Client { return req.C().EnableInsecureSkipVerify().EnableForceHTTP3() },
 		reg:    o.register, hits: o.hits,
 		take: func() []wireEx { return parseH3(o.take()) },
+	})
+}
+
+// genH3Abort: the handler reads part of the upload, answers 413 and returns (quic-go then stops
+// reading the stream: STOP_SENDING reaches the client while it is still writing)
+func genH3Abort(rng *hk.Rand) exSpec {
+	var ex exSpec
+	ex.Method = hk.Pick(rng, []string{"POST", "PUT"})
+	ex.Path = fmt.Sprintf("/up%d", rng.Intn(1000))
+	ex.Headers, _ = genHeaders(rng, "X-Q-")
+	ex.BodyKind = hk.Pick(rng, []string{"bytes", "reader"})
+	ex.BodyLen = hk.Pick(rng, []int{70000, 600000})
+	ex.body = genBytes(rng, ex.BodyLen, rng.Chance(60))
+	ex.Abort = "h3-partial"
+	k := hk.Pick(rng, []int{1, 1000, 20000})
+	ex.Resps = []respSpec{{Status: 413, Framing: "cl", ReadOnly: k, Headers: [][2]string{{"X-Refused", "too large"}}}}
+	ex.Shape = fmt.Sprintf("abort-413+body%d+read%d", ex.BodyLen, k)
+	return ex
+}
+
+func h3AbortPairs(r *hk.Run, rng *hk.Rand, count int) {
+	o, err := newH3Origin()
+	if err != nil {
+		r.Fail(hk.Failure{Sig: "setup:h3", What: "h3 origin could not be started: " + err.Error()})
+		return
+	}
+	defer o.close()
+	pairs23(r, rng, count, stack{
+		name: "h3", ctor: "X3", url: "https://" + o.pc.LocalAddr().String(),
+		client: func() *req.Client { return req.C().EnableInsecureSkipVerify().EnableForceHTTP3() },
+		reg:    o.register, hits: o.hits,
+		take: func() []wireEx { return parseH3(o.take()) },
+		gen:  genH3Abort,
 	})
 }
